@@ -359,8 +359,20 @@ def run(model, tier):
         '(alpha1, beta1, alpha2, beta2) (interval-normalised tests). (v) The in-line normalisation Anm of '
         'CylindricalSandwich._run has the normal form of the method Anm_analytic. (vi) Rod1D BC1-BC4: the series is '
         'expanded for the initial profile minus the static part (Ta = TL - static(0), Tb = TR - static(L) as normal '
-        'forms, two cooperating sites). The PDE, the boundary operator and the '
-        'limits are numeric and not decided.')
+        'forms, two cooperating sites). (vii) Rod1D (and through it the three planar sandwiches), mode by mode '
+        '(sa/rules/c14_modes.py: the source read as formulas of a symbolic integer mode number n): every summand satisfies '
+        'T_t = kappa T_xx; for BC1-BC4 every mode satisfies the homogeneous boundary conditions at both ends for integer n, '
+        'the static part is linear and carries the data alpha_i S + beta_i S_x = gamma_i, and A_n, B_n (and A_0) are the Fourier '
+        'coefficients of (T_L + (T_R - T_L) x / L) - S in the orthogonal basis of the case, so the series tends to the declared '
+        'initial profile as t -> 0+ and to S as t -> infinity; general (Robin) case: A_n = -(beta_1 k_n/alpha_1) B_n satisfies the '
+        'condition at x = 0, the transcendental equation whose roots are taken is the condition at x = L, and the static part '
+        'must carry the data (known finding: it does not, spurious factor L). Not decided: truncation error, the normalisation '
+        'integrals of the general case. Rectangle: static summand harmonic, zero on three sides, top coefficients = sine coefficients '
+        'of Ttop; transient summand solves the 2D heat equation, vanishes on the boundary, and A_nm are the double sine coefficients '
+        'of minus the static part (zero initial temperature; the sinh*sin integral through a supplied antiderivative verified by '
+        'differentiation). Hutchens1: summand solves the spherical heat equation with alpha = k/(rho cp), vanishes at r = b, '
+        'coefficients are the sine coefficients of -r (T = T0 at t = 0). Not decided: Hutchens2 and the cylindrical sandwich '
+        '(Bessel series).')
     res.rule_text = 'instances: dimension constraints, accumulators, singular-point sites, dispatch chain, sibling pair'
     res.trusted_base = ['CPython ast', 'sympy FracField', 'NF engine', 'interval algebra']
     dims(model, res)
@@ -369,4 +381,8 @@ def run(model, tier):
     dispatch_agreement(model, res)
     ic_static_link(model, res)
     sibling_norm(model, res)
+    from . import c14_modes
+    from ..par import run_parallel
+    run_parallel([(lambda part: c14_modes.rod(model, part), ()), (lambda part: c14_modes.rectangle(model, part), ()),
+                  (lambda part: c14_modes.hutchens1(model, part), ())], res)
     return res
